@@ -49,6 +49,9 @@ def c13(run):
     if p.returncode != 0:
         raise Infra("rw gen failed: " + p.stderr[-2000:])
     run.conformance("rw_random_len50", "rw", gen, "RWTrace", RW_TRACE_CFG)
+    # (C) the writer as the framework builds it for a request: HEAD requests - to routes added by Head, Any, Routes, Combo and
+    # as the AutoHead twin of a Get - forward no body byte of the final action's answer (RegistrarTrace, random programs)
+    rg_random(run, 150 if quick else 6000, label="rg_head_bodies")
     return run.finish(
         rule="(A) every operation sequence of length = depth over {WriteHeader(201|404), Write(0/0,3/3,3/1 accepted), Flush, "
              "Before(h1|h2), Push} x {GET,HEAD,POST} emitted by TLC (all prefixes are judged step by step), replayed on "
